@@ -61,6 +61,7 @@ type c16Src struct {
 	kind    int
 	typ     string // sample type name; "" = a profile without sample types (and without samples)
 	samples []c16KV
+	comment string // distinct per source: the merged profile's Comments list the contributors in merge order
 }
 
 type c16Ev struct{ grp, idx int }
@@ -77,6 +78,9 @@ func c16Profile(s c16Src, invalid bool) *profile.Profile {
 	p := &profile.Profile{PeriodType: &profile.ValueType{Type: "cpu", Unit: "nanoseconds"}, Period: 1}
 	if s.typ != "" {
 		p.SampleType = []*profile.ValueType{{Type: s.typ, Unit: "count"}}
+	}
+	if s.comment != "" {
+		p.Comments = []string{s.comment}
 	}
 	m := &profile.Mapping{ID: 1, Start: 0x1000, Limit: 0x100000, BuildID: "c16build"}
 	p.Mapping = []*profile.Mapping{m}
@@ -131,7 +135,7 @@ func c16ObsProfile(p *profile.Profile) Term {
 		}
 		ss = append(ss, L(S(name), Z(v)))
 	}
-	return L(S(typ), L(ss...), ZI(len(p.SampleType)))
+	return L(S(typ), L(ss...), ZI(len(p.SampleType)), Ss(p.Comments))
 }
 
 // ---- scripted environment
@@ -382,7 +386,11 @@ func c16SrcTerm(s c16Src) Term {
 	for _, x := range s.samples {
 		kv = append(kv, L(S(x.k), Z(x.v)))
 	}
-	return L(ZI(s.kind), S(s.typ), L(kv...))
+	cm := []string{}
+	if s.comment != "" {
+		cm = append(cm, s.comment)
+	}
+	return L(ZI(s.kind), S(s.typ), L(kv...), Ss(cm))
 }
 
 func c16Input(cs c16Case) Term {
@@ -408,6 +416,12 @@ type c16Item struct {
 var c16Queue []c16Item
 
 func (c *Ctx) c16Emit(gen string, cs c16Case, tags ...string) {
+	for i := range cs.srcs {
+		cs.srcs[i].comment = fmt.Sprintf("c0:%d", i)
+	}
+	for i := range cs.bases {
+		cs.bases[i].comment = fmt.Sprintf("c1:%d", i)
+	}
 	c16Queue = append(c16Queue, c16Item{gen, cs, tags})
 }
 
